@@ -332,6 +332,10 @@ def run_scenario(scn, *, bus="sync", chooser=None, seed=0, max_steps=None, use_s
         async def stim_task(st):
             if "real" in st:
                 await asyncio.sleep(st["real"] / 1e9)
+            if st.get("pre_cost"):
+                # the adapter does some work before it raises (real time passes inside this loop iteration,
+                # so timers that become due meanwhile have not fired yet when the interrupt is handled)
+                loop.advance(st["pre_cost"])
             await do_interrupt(st["comp"])
 
         async def do_interrupt(c):
